@@ -68,4 +68,31 @@ where
     ) -> io::Result<()> {
         self.0.write_record(header, record).await
     }
+
+    /// Shuts down the output stream.
+    ///
+    /// This flushes any buffered data and, for bgzip-compressed output, writes the final BGZF EOF
+    /// block. It must be called before the writer is dropped; otherwise, the output is truncated.
+    ///
+    /// # Examples
+    ///
+    /// ```
+    /// # #[tokio::main]
+    /// # async fn main() -> tokio::io::Result<()> {
+    /// use noodles_util::variant::r#async::io::writer::Builder;
+    /// use noodles_vcf as vcf;
+    /// use tokio::io;
+    ///
+    /// let mut writer = Builder::default().build_from_writer(io::sink());
+    ///
+    /// let header = vcf::Header::default();
+    /// writer.write_header(&header).await?;
+    ///
+    /// writer.shutdown().await?;
+    /// # Ok(())
+    /// # }
+    /// ```
+    pub async fn shutdown(&mut self) -> io::Result<()> {
+        self.0.shutdown().await
+    }
 }
